@@ -428,8 +428,8 @@ pub fn drive(e: &mut dyn Engine, src: &str, path: Option<&str>, modules: &BTreeM
     let mut rounds = 0;
     loop {
         rounds += 1;
-        if rounds > 200 {
-            trace.push("host: giving up after 200 rounds".into());
+        if rounds > 5000 {
+            trace.push("host: giving up after 5000 rounds".into());
             break;
         }
         match st.clone() {
